@@ -79,6 +79,23 @@ template <class Real> Parts4<Real> genCharged(vh::Rng& r, const tbx::Config<Real
         if (!ok) continue;
         const Real q = Real((sign == 0 ? 1.0 : sign == 1 ? -1.0 : (r.coin() ? 1.0 : -1.0)) * (0.1 + r.unit()));
         out.push_back({p[0], p[1], p[2], q}); prev.push_back(p);
+        if (sign == 3 && long(out.size()) < N) {
+            // neutral pairs: a partner of exactly opposite charge inside the same leaf, so that many cells carry zero net charge
+            for (int tries = 0; tries < 8; ++tries) {
+                std::array<Real, 3> p2; LD rel2[2] = {0, 0};
+                for (int d = 0; d < 3; ++d) {
+                    const LD lw = (LD)cfg.getBoxWidths()[d] / nl; LD u = ((LD)p[d] - (LD)cfg.getBoxCorner()[d]) / lw; LD c = std::floor(u); if (c >= nl) c = nl - 1; if (c < 0) c = 0;
+                    const LD f = 0.08L + 0.84L * (LD)r.unit();
+                    p2[d] = Real((LD)cfg.getBoxCorner()[d] + (c + f) * lw); if (d < 2) rel2[d] = f - 0.5L;
+                }
+                if (!tbx::validPos<Real, 3>(cfg, p2)) continue;
+                if (axisMargin > 0 && std::sqrt(rel2[0] * rel2[0] + rel2[1] * rel2[1]) < axisMargin) continue;
+                bool ok2 = true;
+                for (const auto& q2 : out) { const Real dx = q2[0] - p2[0], dy = q2[1] - p2[1], dz = q2[2] - p2[2]; if (dx * dx + dy * dy + dz * dz < minSep * minSep) { ok2 = false; break; } }
+                if (!ok2) continue;
+                out.push_back({p2[0], p2[1], p2[2], Real(-q)}); prev.push_back(p2); break;
+            }
+        }
     }
     return out;
 }
